@@ -84,7 +84,7 @@ def required_cells(tier):
               "dotdot-after-directory-link:dir", "dotdot-after-directory-link:pre", "dotdot-after-directory-link:all", "forced-include:rel",
               "forced-include:abs", "forced-include:dots", "search-dir-with-blank:command", "search-dir-with-blank:arguments",
               "header-compiled-on-its-own", "compiled-files-excluded-by-pattern", "skip:missing-long-name", "skip:missing-below-a-file",
-              "skip:non-source:hip", "skip:non-source:md", "skip:directory-named-like-a-source-file", "dependency-generation-options",
+              "skip:non-source:hip", "skip:non-source:md", "skip:directory-named-like-a-source-file", "skip:unparsable-command", "dependency-generation-options",
               "cli:logical-working-directory"]
     return cells
 
@@ -194,6 +194,8 @@ SKIPS = {
     # ENAMETOOLONG, not ENOENT), and one below a path component that is a regular file (ENOTDIR)
     "missing-long-name": lambda root: {"file": "src/" + "g" * 300 + ".c", "directory": root, "arguments": ["gcc", "-c", "src/" + "g" * 300 + ".c"]},
     "missing-below-a-file": lambda root: {"file": "src/a.c/gen.c", "directory": root, "arguments": ["gcc", "-c", "src/a.c/gen.c"]},
+    # a command string that the shell could not split either (a quote that is never closed)
+    "unparsable-command": lambda root: {"file": "src/a.c", "directory": root, "command": "gcc -DNAME=\"unterminated -c src/a.c"},
     # a DIRECTORY whose name ends in a source extension (an unpacked bundle, a generator's output directory): not a file
     "directory-named-like-a-source-file": lambda root: {"file": "gen.c", "directory": os.path.join(root, "other"), "arguments": ["gcc", "-c", "gen.c"]},
 }
